@@ -60,7 +60,7 @@ VARIABLES
   \* --- source cluster
   srcNext, wmCount, srcAck, srcUp,
   \* --- receiver R[s]
-  rpc, pending, lastHigh, lastWm, ackByTarget, lastSentMin, ackChan,
+  rpc, pending, bcastTo, lastHigh, lastWm, ackByTarget, lastSentMin, ackChan,
   \* --- sender S[t]
   up, chan, nextPid, ring, prevAck, spc, fwd, fallback, discardN, tackWire, inflight, replayTo,
   \* --- target cluster (ExecutableTaskTracker + StreamReceiver)
@@ -76,7 +76,7 @@ VARIABLES
   viol         \* sticky set of violated clauses: "early","malformed","dropped","dup","disorder","nonmono","overhigh"
 
 srcVars == <<srcNext, wmCount, srcAck, srcUp>>
-rcvVars == <<rpc, pending, lastHigh, lastWm, ackByTarget, lastSentMin, ackChan>>
+rcvVars == <<rpc, pending, bcastTo, lastHigh, lastWm, ackByTarget, lastSentMin, ackChan>>
 sndVars == <<up, chan, nextPid, ring, prevAck, spc, fwd, fallback, discardN, tackWire, inflight, replayTo>>
 tgtVars == <<trkHigh, trkQ>>
 histVars == <<pidMap, conf, delivered, received, lastAck, faults, lost, viol>>
@@ -87,6 +87,7 @@ InitWith(rt) ==
   /\ srcNext = [s \in Src |-> 1] /\ wmCount = [s \in Src |-> 0] /\ srcAck = [s \in Src |-> 0]
   /\ srcUp = [s \in Src |-> "up"]
   /\ rpc = [s \in Src |-> "idle"] /\ pending = [s \in Src |-> [t \in Tgt |-> <<>>]]
+  /\ bcastTo = [s \in Src |-> {}]
   /\ lastHigh = [s \in Src |-> 0] /\ lastWm = [s \in Src |-> 0]
   /\ ackByTarget = [s \in Src |-> [t \in Tgt |-> Absent]]
   /\ lastSentMin = [s \in Src |-> 0] /\ ackChan = [s \in Src |-> <<>>]
@@ -118,7 +119,7 @@ RecvTasks(s, k) ==
              THEN [ackByTarget EXCEPT ![s] =
                      [t \in Tgt |-> IF @[t] = Absent /\ grp[t] # <<>> THEN grp[t][1] ELSE @[t]]]
              ELSE ackByTarget
-  /\ UNCHANGED <<route, wmCount, srcAck, srcUp, lastWm, lastSentMin, ackChan, sndVars, tgtVars,
+  /\ UNCHANGED <<route, wmCount, srcAck, srcUp, bcastTo, lastWm, lastSentMin, ackChan, sndVars, tgtVars,
                  pidMap, conf, delivered, lastAck, faults, lost, viol>>
 
 \* a watermark-only batch: recorded as lastWatermark and broadcast (non-blocking) to every registered channel
@@ -128,11 +129,20 @@ Live(t) == up[t] = "up"         \* the target cluster is connected
 Offer(t, m) == IF Reg(t) /\ Len(chan[t]) < ChanCap THEN Append(chan[t], m) ELSE chan[t]
 RecvWm(s) ==
   /\ srcUp[s] = "up" /\ rpc[s] = "idle" /\ wmCount[s] < MaxWm /\ srcNext[s] > 1
-  /\ LET high == srcNext[s] IN
-     /\ wmCount' = [wmCount EXCEPT ![s] = @ + 1]
-     /\ lastHigh' = [lastHigh EXCEPT ![s] = high] /\ lastWm' = [lastWm EXCEPT ![s] = high]
-     /\ chan' = [t \in Tgt |-> Offer(t, WmMsg(s, high))]
-  /\ UNCHANGED <<route, srcNext, srcAck, srcUp, rpc, pending, ackByTarget, lastSentMin, ackChan,
+  /\ LET high == srcNext[s]
+         snap == {t \in Tgt : Reg(t)}          \* GetRemoteSendChansByCluster: snapshot of the registered channels
+     IN /\ wmCount' = [wmCount EXCEPT ![s] = @ + 1]
+        /\ lastHigh' = [lastHigh EXCEPT ![s] = high] /\ lastWm' = [lastWm EXCEPT ![s] = high]
+        /\ bcastTo' = [bcastTo EXCEPT ![s] = snap]
+        /\ rpc' = [rpc EXCEPT ![s] = IF snap = {} THEN "idle" ELSE "bcast"]
+  /\ UNCHANGED <<route, srcNext, srcAck, srcUp, pending, ackByTarget, lastSentMin, ackChan, sndVars, tgtVars, histVars>>
+\* one non-blocking send of the broadcast loop (dropped when the channel is full or was closed meanwhile)
+Bcast(s, t) ==
+  /\ rpc[s] = "bcast" /\ t \in bcastTo[s]
+  /\ chan' = [chan EXCEPT ![t] = Offer(t, WmMsg(s, lastWm[s]))]
+  /\ bcastTo' = [bcastTo EXCEPT ![s] = @ \ {t}]
+  /\ rpc' = [rpc EXCEPT ![s] = IF bcastTo'[s] = {} THEN "idle" ELSE "bcast"]
+  /\ UNCHANGED <<route, srcVars, pending, lastHigh, lastWm, ackByTarget, lastSentMin, ackChan,
                  up, nextPid, ring, prevAck, spc, fwd, fallback, discardN, tackWire, inflight, replayTo,
                  tgtVars, histVars>>
 
@@ -142,7 +152,7 @@ Deliver(s, t) ==
   /\ chan' = [chan EXCEPT ![t] = Append(@, [src |-> s, ids |-> pending[s][t], high |-> 0])]
   /\ pending' = [pending EXCEPT ![s][t] = <<>>]
   /\ rpc' = [rpc EXCEPT ![s] = IF \A u \in Tgt : pending'[s][u] = <<>> THEN "idle" ELSE "deliver"]
-  /\ UNCHANGED <<route, srcVars, lastHigh, lastWm, ackByTarget, lastSentMin, ackChan,
+  /\ UNCHANGED <<route, srcVars, bcastTo, lastHigh, lastWm, ackByTarget, lastSentMin, ackChan,
                  up, nextPid, ring, prevAck, spc, fwd, fallback, discardN, tackWire, inflight, replayTo,
                  tgtVars, histVars>>
 
@@ -223,7 +233,7 @@ ForwardAck(t, s) ==
   /\ ackChan' = [ackChan EXCEPT ![s] = Append(@, [tgt |-> t, a |-> fwd[t][s]])]
   /\ prevAck' = IF fallback[t] THEN prevAck ELSE [prevAck EXCEPT ![t][s] = fwd[t][s]]
   /\ fwd' = [fwd EXCEPT ![t][s] = Absent]
-  /\ UNCHANGED <<route, srcVars, rpc, pending, lastHigh, lastWm, ackByTarget, lastSentMin,
+  /\ UNCHANGED <<route, srcVars, rpc, pending, bcastTo, lastHigh, lastWm, ackByTarget, lastSentMin,
                  up, chan, nextPid, ring, spc, fallback, discardN, tackWire, inflight, replayTo, tgtVars, histVars>>
 
 FinishAck(t) ==
@@ -254,7 +264,7 @@ Aggregate(s) ==
                        \cup (IF out < lastAck[s] THEN {"nonmono"} ELSE {})
                        \cup (IF out > lastHigh[s] THEN {"overhigh"} ELSE {})
              ELSE UNCHANGED <<lastAck, lastSentMin, srcAck, viol>>
-  /\ UNCHANGED <<route, srcNext, wmCount, srcUp, rpc, pending, lastHigh, lastWm, sndVars, tgtVars,
+  /\ UNCHANGED <<route, srcNext, wmCount, srcUp, rpc, pending, bcastTo, lastHigh, lastWm, sndVars, tgtVars,
                  pidMap, conf, delivered, received, faults, lost>>
 
 (* ---------------- faults (C04) ------------------------------------------- *)
@@ -313,6 +323,7 @@ SrcStop(s) ==
   /\ srcUp[s] = "closing"
   /\ srcUp' = [srcUp EXCEPT ![s] = "down"]
   /\ rpc' = [rpc EXCEPT ![s] = "idle"] /\ pending' = [pending EXCEPT ![s] = [t \in Tgt |-> <<>>]]
+  /\ bcastTo' = [bcastTo EXCEPT ![s] = {}]
   /\ lastHigh' = [lastHigh EXCEPT ![s] = 0] /\ lastWm' = [lastWm EXCEPT ![s] = 0]
   /\ ackByTarget' = [ackByTarget EXCEPT ![s] = [t \in Tgt |-> Absent]]
   /\ lastSentMin' = [lastSentMin EXCEPT ![s] = 0] /\ ackChan' = [ackChan EXCEPT ![s] = <<>>]
@@ -330,7 +341,7 @@ ReopenSrc(s) ==
   /\ UNCHANGED <<route, wmCount, srcAck, rcvVars, sndVars, tgtVars, histVars>>
 
 Internal ==
-  \/ \E s \in Src, t \in Tgt : Deliver(s, t) \/ ForwardAck(t, s) \/ ReplayWm(t, s)
+  \/ \E s \in Src, t \in Tgt : Deliver(s, t) \/ Bcast(s, t) \/ ForwardAck(t, s) \/ ReplayWm(t, s)
   \/ \E t \in Tgt : SenderDequeue(t) \/ SenderRecvAck(t) \/ FinishAck(t) \/ SenderStop(t)
   \/ \E s \in Src : Aggregate(s) \/ SrcStop(s)
 Env ==
